@@ -186,16 +186,23 @@ pub mod file_spec {
     //@   rule R45 *
         }
 
-    /// first filter closure of filter_files: the configured suffix
+    /// first filter closure of filter_files: the configured suffix. From the property statement (`..[.suffix]`): the file NAME ends with
+    /// '.' + suffix - the suffix may contain dots itself ("trc.log"), which is why `Path::extension` is not the right question (defect F18)
+    pub open spec fn name_has_suffix(name: Seq<char>, suffix: Seq<char>) -> bool {
+        // the name ends with the suffix, and what precedes the suffix ends with '.'
+        match strip_suffix_spec(name, suffix) { Some(rest) => is_suffix_chars(seq!['.'], rest), None => false }
+    }
     pub(crate) fn suffix_matches(path: &&PathBuf, o_suffix: Option<&str>) -> (r: bool)
         ensures
-            r == match o_suffix { Some(suffix) => ext_text(pathbuf_path(*path)) == Some(suffix@), None => true }, //@label filter_files.suffix.post C14,C07,C06,C16
+            r == match o_suffix { Some(suffix) => file_name_text(pathbuf_path(*path)) is Some && name_has_suffix(file_name_text(pathbuf_path(*path))->Some_0, suffix@), None => true }, //@label filter_files.suffix.post C14,C07,C06,C16
     //@ span src/parameters/file_spec.rs impl FileSpec / fn filter_files
     //@   blocknth 1/2 .filter(|path|
     //@   rename suffix_matches
     //@   rule R29 *
-    //@   closure ~s == suffix ## sig |ext: &std::ffi::OsStr| -> (r: bool)
-    //@   closure ~s == suffix ## ens r == (osstr_text(ext) == suffix@)
+    //@   closure ~s.strip_suffix(suffix) ## sig |name: &std::ffi::OsStr| -> (r: bool)
+    //@   closure ~s.strip_suffix(suffix) ## ens r == name_has_suffix(osstr_text(name), suffix@)
+    //@   closure ~rest.ends_with('.') ## sig |rest: &str| -> (r: bool)
+    //@   closure ~rest.ends_with('.') ## ens r == is_suffix_chars(seq!['.'], rest@)
 
     /// second filter closure of filter_files: the stem
     pub(crate) fn stem_matches(path: &&PathBuf, fixed_name_part: &String, infix_filter: &InfixFilter) -> (r: bool)
